@@ -777,7 +777,7 @@ fn C05_C09_stateful_delivery_and_nonces() {
             if rcv.receiving_nonce() != u64::MAX - 1 { finding("C09", format!("{}: a rejected read at nonce 2^64-2 moved the counter to {}", name, rcv.receiving_nonce())); bad += 1; }
             if s.sending_nonce() != before { finding("C09", format!("{}: set_receiving_nonce / reads on the peer changed nothing here, yet the sending nonce moved", name)); bad += 1; }
             // setting the RECEIVING nonce never touches the sending side of the same endpoint (either endpoint, one-way patterns included)
-            let sn0 = s.sending_nonce(); s.set_receiving_nonce(0); s.set_receiving_nonce(u64::MAX); s.set_receiving_nonce(5);
+            let sn0 = s.sending_nonce(); s.set_receiving_nonce(0); s.set_receiving_nonce(u64::MAX); s.set_receiving_nonce(sn0 + 12345);
             if s.sending_nonce() != sn0 { finding("C09", format!("{}: set_receiving_nonce on the sending endpoint moved its SENDING nonce from {} to {}", name, sn0, s.sending_nonce())); bad += 1; }
             match s.write_message(b"still in sequence", &mut buf) { Ok(_) if s.sending_nonce() == sn0 + 1 => {}, o => { finding("C09", format!("{}: after set_receiving_nonce calls on the sender the next write returns {:?} and the sending nonce is {} (expected {})", name, o, s.sending_nonce(), sn0 + 1)); bad += 1; } }
             let sn = rcv.sending_nonce(); rcv.set_receiving_nonce(77); if rcv.sending_nonce() != sn { finding("C09", format!("{}: set_receiving_nonce changed the sending nonce of the same endpoint ({} -> {})", name, sn, rcv.sending_nonce())); bad += 1; }
